@@ -88,28 +88,14 @@ Definition paused_subscription_context (s : sys) (l : list Z) : ctx_result * opt
   end.
 
 (* ---- decidable side conditions used by the partial theorems ---- *)
-(* recorded class 1: a subscribe/resume naming ALL_MESSAGE_TYPES issued while already subscribed to all *)
-Definition resub_all (c : cstate) (o : op) : bool :=
-  sub_all c &&
-  match o with
-  | OSub l | OResume l => mem ALL_MESSAGE_TYPES l
-  | OResumeAll => mem ALL_MESSAGE_TYPES (paused c)
-  | _ => false
-  end.
-Fixpoint no_resub_all (s : sys) (ops : list op) : bool :=
-  match ops with
-  | [] => true
-  | o :: r => negb (resub_all (cl s) o) && no_resub_all (fst (sys_step s o)) r
-  end.
-
-(* recorded classes 2 and 3 for subscription_context: the filtering loop skipped an already subscribed
+(* recorded classes for subscription_context: the filtering loop skipped an already subscribed
    entry (so that it survives in the list), or an entry of the list is paused on entry *)
 Definition sub_ctx_ok (c : cstate) (l : list Z) : bool :=
   match sub_ctx_list c l with
   | None => false
   | Some l' => forallb (fun t => negb (mem t (subscribed c)) && negb (mem t (paused c))) l'
   end.
-(* recorded class 2 for paused_subscription_context: a not-subscribed entry survived the loop *)
+(* recorded class for paused_subscription_context: a not-subscribed entry survived the loop *)
 Definition pause_ctx_ok (c : cstate) (l : list Z) : bool :=
   match pause_ctx_list c l with
   | None => false
